@@ -111,6 +111,8 @@ prop('C05',
            'plus Seq/ToSeq: ToSeq(chain(Seq(xs...))) for generated chains of Map/Filter/Take/TakeWhile/FMap over 0..24 (10%: 1000..2200) elements equals the list functions, the caller overwriting its slice right after Seq returned; the input buffer may already hold elements when the stage is created (Prefill); non-trivial = input length >= 2 and (capacity < length or a quiescent point with a blocked producer / full buffer); distinct = different canonical scenario'),
      assumptions=E3_ASSUME,
      parts=[
+         dict(name='enum', engine='E3', pkg='pipes', test='TestC05Enum', kind='plain',
+              quick=dict(shards=8), thorough=dict(shards=16, timeout=3000)),
          dict(name='seq', engine='E3', pkg='pipes', test='TestC05Seq',
               quick=dict(cases=10000, shards=1), thorough=dict(cases=200000, shards=8, timeout=3000)),
          dict(name='rapid', engine='E3', pkg='pipes', test='TestC05',
@@ -177,6 +179,8 @@ prop('C08',
            'besides the sequential sender, batches start 1..8 INDEPENDENT one-shot senders (several goroutines parked on a full send buffer while the cancel arrives; their values may arrive in any order, each at most once, every completed one delivered); in 25% of the scenarios a pipe of another element type (string) runs through a few values first in the same process; non-trivial = backlog >= 2 at some quiescent point and (the stream ends with a backlog / racing sends, or the queue drained to empty and refilled at least twice); distinct = different canonical scenario'),
      assumptions=E3_ASSUME + ['no send is started after a completed cancel (the library closes the send side on cancel by design); a send racing the cancel may complete, give up or hit the closed channel - only completed sends enter the model'],
      parts=[
+         dict(name='enum', engine='E3', pkg='pipes', test='TestC08Enum', kind='plain',
+              quick=dict(shards=4), thorough=dict(shards=16, timeout=3000)),
          dict(name='rapid', engine='E3', pkg='pipes', test='TestC08',
               quick=dict(cases=12000, shards=4), thorough=dict(cases=600000, shards=16, timeout=3000)),
      ],
@@ -274,6 +278,8 @@ prop('C12',
            'the slice of channels handed to Join is overwritten right after the call; one scenario in eight hands the same channel to Join twice (multiset oracle, no invented values); non-trivial = k >= 2, two non-empty inputs, sends alternate between inputs; distinct = different canonical scenario'),
      assumptions=E3_ASSUME,
      parts=[
+         dict(name='enum', engine='E3', pkg='pipes', test='TestC12Enum', kind='plain',
+              quick=dict(shards=4), thorough=dict(shards=16, timeout=3000)),
          dict(name='rapid', engine='E3', pkg='pipes', test='TestC12',
               quick=dict(cases=12000, shards=4), thorough=dict(cases=600000, shards=16, timeout=3000)),
      ],
